@@ -11,13 +11,11 @@ def run(tier, rep):
     items = [t for t, grp in P.texts_for(tier)]
     if tier == 'thorough':
         seen = set(items)
-        for kind in ('S', 'E'):
-            for b in G.chains(3, kind):
-                lex = b.lex if kind == 'S' else G.as_statement(b).lex
-                t = G.render(lex)
-                if t not in seen:
-                    seen.add(t)
-                    items.append(t)
+        for lex in G.chain_programs(3, G.CORE_FORMS):
+            t = G.render(lex)
+            if t not in seen:
+                seen.add(t)
+                items.append(t)
     total = P.run_cases(items, lambda acc, it: P.case_c02(acc, it))
     rep.space('programs', count=len(items))
     rep.cov['bounds'] = {'S2_k': 2 if tier == 'quick' else 3,
